@@ -47,10 +47,15 @@ impl<I> Iterator for Src<'_, I> {
         env::touch(Cb::SrcHint, None, None);
         let rem = self.items.len().saturating_sub(self.pos);
         match self.cfg.hint {
+            // correct hints, from exact to useless
             0 => (rem, Some(rem)),
             1 => (0, None),
-            2 => (usize::MAX, None),
-            3 => (self.cap * 1000 + 77, None),
+            2 => (0, Some(usize::MAX)),
+            3 => (rem, None),
+            4 => (rem / 2, Some(rem * 2 + 5)),
+            // incorrect hints (a buggy source): only memory safety may be expected then
+            5 => (usize::MAX, None),
+            6 => (self.cap * 1000 + 77, None),
             _ => (0, Some(0)),
         }
     }
@@ -136,8 +141,10 @@ pub fn map_from_iter<K: SimK, V: SimV, const C: usize>(m: &mut Map<K, V, C>, cx:
         }
     }
     let panicked = r.is_err();
-    check_pulls(what, &log, vis, classes.len(), panicked);
-    if !cx.lying {
+    if src.hint <= 4 {
+        check_pulls(what, &log, vis, classes.len(), panicked);
+    }
+    if !cx.lying && src.hint <= 4 {
         // the reference: a fresh container of the same type, fed the same logical items one by one
         let refr = observing(|| {
             catch_unwind(AssertUnwindSafe(|| {
@@ -219,8 +226,10 @@ pub fn set_from_iter<K: SimK, V: SimV, const C: usize>(s: &mut Set<K, C>, cx: &m
             resume_unwind(r.err().unwrap());
         }
     }
-    check_pulls(what, &log, vis, classes.len(), r.is_err());
-    if !cx.lying {
+    if src.hint <= 4 {
+        check_pulls(what, &log, vis, classes.len(), r.is_err());
+    }
+    if !cx.lying && src.hint <= 4 {
         let refr = observing(|| {
             catch_unwind(AssertUnwindSafe(|| {
                 let mut rs: Set<K, C> = Set::new();
@@ -298,11 +307,15 @@ pub fn set_extend<K: SimK, V: SimV, const C: usize>(s: &mut Set<K, C>, cx: &mut 
             resume_unwind(r.err().unwrap());
         }
     }
-    check_pulls("Set::extend", &log, vis, classes.len(), r.is_err());
+    if src.hint <= 4 {
+        check_pulls("Set::extend", &log, vis, classes.len(), r.is_err());
+    } else {
+        cx.probe("source_with_incorrect_size_hint");
+    }
     if r.is_err() {
         cx.probe("extend_overflowed_mid_stream");
     }
-    if !cx.lying {
+    if !cx.lying && src.hint <= 4 {
         let refr = observing(|| {
             let mut rs: Set<K, C> = Set::new();
             for e in pre {
